@@ -164,7 +164,7 @@ def main(tier, seed):
     else:
         batches = [{"kind": "exhaustive", "L": L, "first": [[a, b]], "seed": seed} for a in OPS for b in OPS]
     for i in range(8 if q else 24):
-        batches.append({"kind": "random", "n": 150 if q else 800, "maxlen": 400 if q else 2000, "seed": seed * 991 + i})
+        batches.append({"kind": "random", "n": 150 if q else 120, "maxlen": 400 if q else 2000, "seed": seed * 991 + i})
     acc = harness.run_workers("checks.c16_session_ids", "run_batch", batches, 1500)
     d = acc.extra.pop("distinct_sequences", 0) + len(acc.sigs)
     return harness.finish(PROP, tier, seed, "exploration", acc, RULE,
